@@ -83,12 +83,14 @@ namespace AIToolbox::Factored::Bandit {
         // We use these iterators to skip the factors for this agent.
         auto skipIt = factors.cbegin(); const auto factorsEnd = factors.cend();
         for (auto it = graph.cbegin(); it != graph.cend(); ++it) {
-            // We skip the ones for this agent. Both lists are in the same
-            // order so we can keep track of the last duplicate we found to
-            // do less work later.
+            // The factors of this agent are cross-summed one at a time, and
+            // we prune after each of them: the ones still to be cross-summed
+            // can only add to the variance, so they must count for the upper
+            // bound (but not for the lower one).
+            bool isAgentFactor = false;
             if (skipIt != factorsEnd && *skipIt == it) {
                 ++skipIt;
-                continue;
+                isAgentFactor = true;
             }
             double currMax = std::numeric_limits<double>::lowest();
             double currMin = std::numeric_limits<double>::max();
@@ -97,6 +99,10 @@ namespace AIToolbox::Factored::Bandit {
                     currMax = std::max(currMax, entry.v[1]);
                     currMin = std::min(currMin, entry.v[1]);
                 }
+            }
+            if (isAgentFactor) {
+                if (currMax > 0.0) x_u += currMax;
+                continue;
             }
             x_u += currMax;
             x_l += currMin;
